@@ -328,6 +328,14 @@ def enc_elem(v):
     return struct.pack("<Q", v & 0xFFFFFFFFFFFFFFFF)
 
 
+def enc_option(body):
+    """An optional structure: its size in elements (0 = absent), then the structure itself."""
+    if body is None:
+        return enc_elem(0)
+    assert len(body) % 8 == 0
+    return enc_elem(len(body) // 8) + body
+
+
 def enc_raw(n, big):
     words = (n + 63) // 64
     out = enc_elem(n) + enc_elem(words)
